@@ -636,8 +636,10 @@ func AuthResponseFormPost(res http.ResponseWriter, redirectURI string, response 
 }
 
 func setFragment(uri *url.URL, params url.Values) string {
-	uri.Fragment = params.Encode()
-	return uri.String()
+	// the form-encoded parameters are appended as they are: assigning them to
+	// uri.Fragment would have URL.String() escape the percent signs a second time
+	uri.Fragment, uri.RawFragment = "", ""
+	return uri.String() + "#" + params.Encode()
 }
 
 func mergeQueryParams(uri *url.URL, params url.Values) string {
